@@ -19,6 +19,15 @@ Theorem C01_scheduled_pulse_durations :
 Proof. exact scheduled_pulse_durations. Qed.
 Print Assumptions C01_scheduled_pulse_durations.
 
+(** ... its amplitude is never above the channel's maximum (on the maximum
+    over its samples that the model keeps of every pulse), ... *)
+Theorem C01_scheduled_amplitude_within_max :
+  forall v ops c sl p m,
+    senv_ok v -> In c (q_sched (run v ops)) -> In sl (ch_slots c) -> s_kind sl = KPulse p ->
+    c_maxamp (ch_cfg c) = Some m -> f_gt (p_amax p) m = false.
+Proof. exact scheduled_amplitude_within_max. Qed.
+Print Assumptions C01_scheduled_amplitude_within_max.
+
 (** ... and so does every other instruction (automatic delays, retargets, EOM
     buffers): the whole sequence is no longer than the device maximum. *)
 Theorem C01_sequence_within_device_max :
